@@ -1,7 +1,7 @@
 (* Extraction of the executable model for the correspondence check.
    ExtrOcamlBasic only: bool, option, unit, list, prod, sumbool map to the OCaml
    natives; N, positive, Z, nat stay as extracted inductives; no Extract Constant. *)
-From SP Require Import Model.Impl Model.Spec.
+From SP Require Import Model.Impl Model.Spec Model.Typing Model.Template.
 Require Extraction.
 Require ExtrOcamlBasic.
 Extraction Language OCaml.
@@ -14,6 +14,16 @@ Definition x_spec_run := spec_run.
 Definition x_apply_range_str (l : list str) (r : range) := apply_range l r.
 Definition x_select_str (r : range) (l : list str) := select r l.
 
+Definition x_infer := infer.
+Definition x_well_typed := well_typed.
+Definition x_last_sep := last_sep.
+Definition x_format_pure (E : Env) (t : template) (x : str) : outcome str := run_pure (impl_format E t x).
+Definition x_spec_format := spec_format.
+Definition x_fwi_pure (E : Env) (t : template) (inputs : list (list str)) (seps : list str) : outcome str :=
+  run_pure (impl_format_with_inputs E t inputs seps).
+Definition x_spec_fwi := spec_format_with_inputs.
+
 Extraction "model.ml"
+  x_infer x_well_typed x_last_sep x_format_pure x_spec_format x_fwi_pure x_spec_fwi
   x_run_pure_impl x_run_st_impl x_spec_run x_apply_range_str x_select_str empty_caches
   split join replace_plain sort_asc unique utf8 utf8_len is_ws valid.
